@@ -15,13 +15,13 @@ def cell(s, n):
 
 
 def key(d):
-    m = re.match(r"(C\d+)-([mw])(\d+)", os.path.basename(d))
+    m = re.match(r"(C\d+)-([mwx])(\d+)", os.path.basename(d))
     return (m.group(1), m.group(2), int(m.group(3))) if m else (os.path.basename(d), "", 0)
 
 
 rows = []
 stats = {"total": 0, "detected": 0, "concrete": 0, "confirmed": 0}
-for d in sorted(glob.glob(os.path.join(HERE, "seeded", "C*-[mw]*")), key=key):
+for d in sorted(glob.glob(os.path.join(HERE, "seeded", "C*-[mwx]*")), key=key):
     try:
         m = json.load(open(os.path.join(d, "meta.json")))
     except Exception:
